@@ -13,54 +13,7 @@ pub mod vx_base {
     use core::ops::Range;
     use vstd::std_specs::cmp::PartialEqSpec;
 
-/*@include vx/prelude.rs @*/
-
-    // ------------------------------------------------------------------------------------------
-    // trait Merge: the real declaration, plus the ghost interface the callers rely on.
-    //   wf          value-level invariant (e.g. "attribute list has no duplicates")
-    //   merge_spec  what `merge` computes
-    //   eq_spec     (from PartialEqSpec) what `==` computes; required to be an equivalence on wf values
-    // The laws are proof obligations of every impl inside this unit (proved for `()`), and assumptions
-    // about implementors outside it (A3).
-    // ------------------------------------------------------------------------------------------
-    pub trait Merge: Clone + PartialEq + Sized {
-        spec fn wf(&self) -> bool;
-
-        spec fn merge_spec(&self, other: &Self) -> Self;
-
-        /*@extract yrs/src/ids.rs | trait Merge: Clone + PartialEq | fn merge
-        @sig
-            requires old(self).wf(), other.wf(),
-            ensures final(self).wf(), *final(self) == old(self).merge_spec(other),
-        @*/
-
-        proof fn law_obeys_eq()
-            ensures Self::obeys_eq_spec();
-
-        proof fn law_eq_refl(&self)
-            requires self.wf(),
-            ensures self.eq_spec(self);
-
-        proof fn law_eq_sym(&self, b: &Self)
-            requires self.wf(), b.wf(), self.eq_spec(b),
-            ensures b.eq_spec(self);
-
-        proof fn law_eq_trans(&self, b: &Self, c: &Self)
-            requires self.wf(), b.wf(), c.wf(), self.eq_spec(b), b.eq_spec(c),
-            ensures self.eq_spec(c);
-    }
-
-    /// A3: `Clone` of a `Merge` value (and of a `(Range<u32>, T)` entry, whose Clone is std's tuple impl)
-    /// returns a structurally equal value.  True for `()` and for `ContentAttributes` (SmallVec of Arc).
-    pub broadcast axiom fn axiom_clone_merge<T: Merge>(a: &T, b: T)
-        requires #[trigger] call_ensures(T::clone, (a,), b),
-        ensures *a == b;
-
-    pub broadcast axiom fn axiom_clone_entry<T: Merge>(a: (Range<u32>, T), b: (Range<u32>, T))
-        requires #[trigger] cloned(a, b),
-        ensures a == b;
-
-    pub broadcast group vx_clone_axioms { axiom_clone_merge, axiom_clone_entry }
+/*@include units/ids_common/base.rs @*/
 }
 
 pub mod vx_ids {
@@ -71,82 +24,7 @@ pub mod vx_ids {
 
     broadcast use vx_clone_axioms;
 
-    // ------------------------------------------------------------------------------------------
-    // abstraction
-    // ------------------------------------------------------------------------------------------
-    pub type Ent<T> = (Range<u32>, T);
-
-    /// clock `c` lies in the half-open range `r`
-    pub open spec fn inr(r: Range<u32>, c: int) -> bool {
-        r.start <= c < r.end
-    }
-
-    /// the set of clocks: `c` is covered by some entry
-    pub open spec fn covers<T>(s: Seq<Ent<T>>, c: int) -> bool {
-        exists|i: int| 0 <= i < s.len() && #[trigger] inr(s[i].0, c)
-    }
-
-    pub open spec fn idx_of<T>(s: Seq<Ent<T>>, c: int) -> int {
-        choose|i: int| 0 <= i < s.len() && #[trigger] inr(s[i].0, c)
-    }
-
-    /// the value attached to clock `c` (meaningful when `covers(s, c)`)
-    pub open spec fn val_at<T>(s: Seq<Ent<T>>, c: int) -> T {
-        s[idx_of(s, c)].1
-    }
-
-    pub open spec fn nonempty<T>(s: Seq<Ent<T>>) -> bool {
-        forall|i: int| 0 <= i < s.len() ==> (#[trigger] s[i]).0.start < s[i].0.end
-    }
-
-    /// sorted and pairwise disjoint
-    pub open spec fn sorted<T>(s: Seq<Ent<T>>) -> bool {
-        forall|i: int, j: int| 0 <= i < j < s.len() ==> (#[trigger] s[i]).0.end <= (#[trigger] s[j]).0.start
-    }
-
-    pub open spec fn vals_wf<T: Merge>(s: Seq<Ent<T>>) -> bool {
-        forall|i: int| 0 <= i < s.len() ==> (#[trigger] s[i]).1.wf()
-    }
-
-    /// adjacent ranges with equal values are coalesced
-    pub open spec fn coalesced<T: Merge>(s: Seq<Ent<T>>) -> bool {
-        forall|i: int| 0 <= i < s.len() - 1 && (#[trigger] s[i]).0.end == s[i + 1].0.start ==> !s[i].1.eq_spec(&s[i + 1].1)
-    }
-
-    /// shape invariant that does not mention values (used for the `other: &IdRanges<U>` of `exclude`)
-    pub open spec fn ranges_ok<T>(s: Seq<Ent<T>>) -> bool {
-        nonempty(s) && sorted(s)
-    }
-
-    /// canonical form of C16: sorted, non-overlapping, no empty ranges, adjacent equal-valued ranges coalesced
-    pub open spec fn canon<T: Merge>(s: Seq<Ent<T>>) -> bool {
-        nonempty(s) && sorted(s) && vals_wf(s) && coalesced(s)
-    }
-
-    // ------------------------------------------------------------------------------------------
-    // lemmas (pure; no executable code)
-    // ------------------------------------------------------------------------------------------
-    /// in a sorted sequence the covering entry is unique
-    pub proof fn lemma_idx_unique<T>(s: Seq<Ent<T>>, i: int, c: int)
-        requires
-            sorted(s),
-            0 <= i < s.len(),
-            inr(s[i].0, c),
-        ensures
-            covers(s, c),
-            idx_of(s, c) == i,
-            val_at(s, c) == s[i].1,
-    {
-        let j = idx_of(s, c);
-        assert(0 <= j < s.len() && inr(s[j].0, c));
-        if j < i {
-            assert(s[j].0.end <= s[i].0.start);
-        } else if i < j {
-            assert(s[i].0.end <= s[j].0.start);
-        }
-    }
-
-    /*@extract yrs/src/ids.rs | - | struct IdRanges @*/
+/*@include units/ids_common/spec.rs @*/
 
     impl<T: Merge> IdRanges<T> {
         pub closed spec fn view(&self) -> Seq<Ent<T>> {
